@@ -382,11 +382,20 @@ func (pr *printer) listShape(fn *ssa.Function) (elem, sep []psym, err error) {
 		}
 		return len(latches) > 0
 	}
-	var ea, sa []Atom
+	// the loop ends only by exhausting the list: any other way out (break, return) prints a
+	// truncated list
 	for _, b := range fn.Blocks {
-		if !l.Body[b] {
+		if !l.Body[b] || b == l.Header {
 			continue
 		}
+		for _, s := range view.Succs(b) {
+			if !l.Body[s] {
+				return nil, nil, fmt.Errorf("the loop over the elements can be left early (from the block ending at %s): the printed list may omit elements", pr.p.instrPos(b.Instrs[len(b.Instrs)-1]))
+			}
+		}
+	}
+	var ea, sa []Atom
+	for _, b := range fn.Blocks {
 		for _, in := range view.Instrs(b) {
 			c, ok := in.(*ssa.Call)
 			if !ok {
@@ -395,6 +404,9 @@ func (pr *printer) listShape(fn *ssa.Function) (elem, sep []psym, err error) {
 			sc := c.Common().StaticCallee()
 			if sc == nil || len(c.Common().Args) < 2 || !isBufferType(c.Common().Args[0].Type()) {
 				continue
+			}
+			if !l.Body[b] {
+				return nil, nil, fmt.Errorf("text is written outside the loop over the elements (%s): not a plain separated list", pr.p.instrPos(c))
 			}
 			if sc.Name() != "WriteString" {
 				return nil, nil, fmt.Errorf("unsupported write %s", sc.Name())
